@@ -1133,6 +1133,8 @@ def _sample(case):
 
 
 CORPUS = [
+  # F17 (fixed in /repo b8e318a): feasible badly scaled set that HiGHS' interior point reported infeasible
+  {'kind': 'restrict', 'box': [[0.0, 39615718.0], [-0.004706187632933282, 0.0026776797795321945], [0.0, 228.6190990056797]], 'cons': [{'w': [-6.499775320637202e-09, 0.0, 0.0029230227396904213], 'rhs': 0.06809532504615712}, {'w': [1.8661200706292615e-08, -43.62631482090049, -0.0017446086833605493], 'rhs': 0.24265074714037418}], 'rho': 0.0019563442643916284, 'style': 'wide', 'pts': [], 'viable': [33017734.08918605, -0.012645930597655626, -638.0750307106831], 'viable_kind': 'outside', 'onC': True, 'npseed': 885217804, 'fixed': None},
   # F16 (known finding): badly scaled set, HiGHS interior point stops ~20% short of the maximal radius
   {"kind": "interior", "box": [[-0.004389761103587496, -0.001680724138242704], [-0.004510542002256968, -0.002548601384412726], [0.0, 40743551.0]], "cons": [{"w": [-165.96197853461294, -271.9916334612964, -1.0497501850820628e-08], "rhs": 0.9775831063113845}, {"w": [124.65475514297076, 0.0, 1.3154084495960551e-08], "rhs": -0.05450418886731935}, {"w": [273.83786212675363, 0.0, 1.2649565577135698e-08], "rhs": -0.44158414570723115}, {"w": [108.95544024433963, -353.8068191417619, -2.415847277694769e-08], "rhs": -0.04113923813137177}], "mode": "feasible", "rho": 0.0004031730566169991, "via_domain": False, "xs_hint": [-0.0026156154977017287, -0.003846263645023263, 30441714.055077992]},
 
